@@ -1,3 +1,4 @@
+import MpsProps.Anchors.C08
 import Mps.Judge
 import MpsProps.Src.SrcCmpKeygen
 import MpsProps.Src.SrcFrostKeygen
